@@ -1,5 +1,12 @@
 """Registry of claimed checks (drives MANIFEST.json via bin/mkmanifest.py)."""
-CHECKS = {}
+CHECKS = {
+    "C14": dict(
+        level="proof",
+        technique="contract-based deductive verification: sidecar pre/postconditions + loop invariants on the real pairing/projection/enumeration functions, VCs generated from the /repo AST by pyvc and discharged by z3 (NIA) with cvc5 fallback; bijection statements as lemmas over the contracts (opaque spec functions + proved injectivity lemmas)",
+        text="Every obligation is proved for all integers (unbounded): the 2-d pairings of Szudzik, Rosenberg-Strong and Cantor and their projections are mutually inverse on N^2; nested 3-d pairing; Rosenberg-Strong n-d methods for d=1,2,3 including the integer-root correction loops (inductive invariants); Z<->N foldings; PairingToZd for d=2,3 over each pairing; PairingToZ1d for the three interval shapes and any call order; lazy_indices_product yields the mixed-radix digits of n for n < prod(sizes) (loop invariant over a symbolic number of iterations, sizes symbolic, 1..3 axes); StatesManager returns the admissible state of smallest remaining index and signals exhaustion only after the largest frontier index (quantified loop invariant over abstract is_outside / index->state).",
+        note="Trusted: z3/cvc5, the pyvc interpreter and library models (math.isqrt exact; floor of an integer quotient = floor division; x**(1/d) a real d-th root), Python ints unbounded. Not covered deductively: HyperbolicPairing (integer factorisation; no contract within reach), PepisKalmar, Domain.compute_total_number_of_states_and_frontier for d>=2 (abstracted behind the frontier-index contract of StatesManager). Pigeonhole (injective map between finite sets of equal size is bijective) is used for lazy_indices_product with 3 axes only as a cross-check; surjectivity is also proved directly.",
+    ),
+}
 NOT_APPLICABLE = {}
 HOOK_COMMITS = []
 NOTES = ("Contract-based deductive verification: pyvc symbolically executes the real function ASTs read from /repo "
